@@ -29,6 +29,21 @@ def suffix_frames(f):
     return out
 
 
+def drop_block_frames(f):
+    """frames with one inner block removed (the remaining blocks keep their order; the last-block flag stays where it
+    was): what follows the gap relies on state the removed block would have set"""
+    w = framegen.walk_blocks(f['frame'])
+    if not w or len(w[1]) < 3:
+        return []
+    h, blocks, end = w
+    fr = f['frame']
+    out = []
+    for j in range(1, len(blocks) - 1):
+        p, last, ty, size, body = blocks[j]
+        out.append(fr[:p] + fr[p + 3 + body:])
+    return out
+
+
 def multi_block_pool(rng, n):
     items, lines = [], []
     for _ in range(n):
@@ -105,12 +120,15 @@ def run(chk):
         return
     pool = multi_block_pool(rng, 40 if thorough else 16)
     pool += synth.make_sequence_frames(rng, 40 if thorough else 16)
+    pool += synth.make_rle_repeat_frames(rng, 24 if thorough else 10)
     dicts = make_dicts(rng, 3 if thorough else 2)
     probes = []
     for f in pool:
         probes.append((f['frame'], 'valid'))
         for s in suffix_frames(f)[:3]:
             probes.append((s, 'suffix'))
+        for s in drop_block_frames(f)[:2]:
+            probes.append((s, 'gap'))
     for d, frs in dicts:
         for g in frs:
             probes.append((g['frame'], 'dict-frame-without-dict'))
@@ -143,6 +161,12 @@ def run(chk):
         if not w or len(w[1]) < 2:
             continue
         sfx = suffix_frames(f)
+        for gi, g in enumerate(drop_block_frames(f)[:3]):
+            probe_prog = 'src=%s I B?a C Q K' % hexs(g)
+            for hist_prog, hk in (('src=%s I B?b%d' % (hexs(f['frame']), gi + 2), 'self-abandoned-after-%d' % (gi + 2)),
+                                  ('src=%s I Ba C' % hexs(f['frame']), 'self-complete')):
+                cases.append(('self-gap', [hk]))
+                lines.append('%s %s new %s' % (hist_prog, probe_prog, probe_prog))
         for k in sorted(set([1, len(w[1]) - 1, rng.range(1, len(w[1]) - 1)])):
             probe = sfx[k - 1]
             probe_prog = 'src=%s I B?a C Q K' % hexs(probe)
